@@ -286,6 +286,7 @@ Proof.
     apply ca_update; [repeat constructor; intros []|exact H2|].
     intros k' v'. cbn. destruct (Z.eqb k' k) eqn:E2; [|discriminate].
     apply Z.eqb_eq in E2; subst. intros E3; inversion E3; subst. exact Ho.
+  - cbn [fst]. apply Consistent_w_mem; [exact H|apply cm_nil].
 Qed.
 
 (* every call of every history returns the function's value: by induction over the history *)
@@ -796,7 +797,7 @@ Lemma step_traffic c s o : traffic o = true -> Good c s ->
 Proof.
   intros Ht (Hwf & Har & Hag).
   assert (Hwf' : WF c (fst (step c s o))).
-  { apply WF_step; [exact Hwf|]. destruct o; try exact I. discriminate. }
+  { apply WF_step; [exact Hwf|]. destruct o; try exact I; discriminate. }
   destruct o; try discriminate; cbn [step] in *.
   - destruct (call_keeps c s kr fr orc Hwf Har Hag) as (A & B & C & D & _).
     split; [split; [exact Hwf'|split; assumption]|split; assumption].
